@@ -47,7 +47,7 @@ func TestMain(m *testing.M) {
 		"field-delivered-by-short-reads", "ecdh-recompute-x25519", "ecdh-recompute-nist", "p521-masked-byte-flipped", "mlkem-consecutive",
 		"xwing-both-halves", "ecies-dem-iv", "ecies-compressed-point", "pss-auto-salt", "composite-two-draws", "keygen-symmetric-copy",
 		"keygen-asymmetric-copy", "keygen-asymmetric-fn", "keygen-nonrandomized-type", "pooled-key", "jwt-signature",
-		"manager-delete", "manager-setprimary", "manager-disable-enable", "add-after-delete", "mldsa-prehash-signer", "output-verified")
+		"kms-envelope-fresh-dek", "manager-delete", "manager-setprimary", "manager-disable-enable", "add-after-delete", "mldsa-prehash-signer", "output-verified")
 	if core.Thorough() {
 		core.DeclareProbes("rsa-primes-located-in-stream", "slhdsa-keygen-seeds-copied", "cost2-produce")
 	}
@@ -894,7 +894,21 @@ var messages = [][]byte{
 
 func (w *world) newPrim(ks *keyState) {
 	t := w.t
-	switch rapid.SampledFrom([]string{"factory", "new-handle", "subtle"}).Draw(t, "primKind") {
+	switch rapid.SampledFrom([]string{"factory", "new-handle", "subtle", "envelope"}).Draw(t, "primKind") {
+	case "envelope":
+		if ks.e.Class == catalog.AEAD {
+			tpl := rapid.IntRange(0, len(dekTemplates)-1).Draw(t, "dekTemplate")
+			var p *prim
+			var err error
+			w.bracket(ks.loc+".envelope-constructor", func() { p, err = envelopePrim(ks.k, ks.handles[0], tpl) })
+			if err != nil {
+				t.Fatalf("harness: envelope AEAD over %s: %v", ks.e.Name, err)
+			}
+			ks.prims = append(ks.prims, p)
+			w.r.Logf("key %s: KMS-envelope primitive #%d with DEK template %s", ks.e.Name, len(ks.prims)-1, dekTemplates[tpl].name)
+			return
+		}
+		fallthrough
 	case "subtle":
 		var p *prim
 		var ok bool
@@ -1009,6 +1023,10 @@ func (w *world) produce(ki int) {
 		n, ok := aeadIVLen(ks.e.Params)
 		if !ok {
 			t.Fatalf("harness: no IV layout for %T", ks.e.Params)
+		}
+		if p.kind == "envelope" {
+			w.checkEnvelope(ks, p, loc, wn, orig, n)
+			return
 		}
 		if len(orig) < p.prefixLen+n {
 			r.Violation("C20/provenance:"+loc+".iv", fmt.Sprintf("ciphertext of %d bytes cannot hold prefix %d + iv %d", len(orig), p.prefixLen, n))
@@ -1165,6 +1183,65 @@ func (w *world) produce(ki int) {
 	default:
 		t.Fatalf("harness: class %s has no producing oracle", ks.e.Class)
 	}
+}
+
+// checkEnvelope: output = len(4) ‖ KEK-ciphertext of the fresh DEK ‖ DEK-ciphertext
+// of the data. The KEK IV and the DEK IV are copies of bytes issued during the
+// call, the DEK (seen by opening the first part with the KEK) carries key
+// bytes issued during the call, and no DEK is used twice.
+func (w *world) checkEnvelope(ks *keyState, p *prim, loc string, wn win, out []byte, kekIV int) {
+	r := w.r
+	bad := func(field, why string) {
+		r.Violation("C20/provenance:"+loc+"."+field, fmt.Sprintf("%s: %s; issued during the call [%d,%d) = %s", ks.e.Name, why, wn.start, wn.end, core.Hex(wn.data, 48)))
+	}
+	if len(out) < 4 {
+		bad("kek-iv", "output too short")
+		return
+	}
+	L := int(binary.BigEndian.Uint32(out[:4]))
+	if L <= 0 || 4+L > len(out) || L < p.prefixLen+kekIV || len(out)-4-L < p.dekIV {
+		bad("kek-iv", fmt.Sprintf("envelope of %d bytes with encrypted-DEK length %d cannot hold the IVs", len(out), L))
+		return
+	}
+	encDEK, payload := out[4:4+L], out[4+L:]
+	if len(wn.data) < kekIV+p.dekIV+16 {
+		r.Violation("C20/short-consumption:"+loc, fmt.Sprintf("%s: the call consumed %d random bytes; a fresh DEK and two IVs need at least %d", ks.e.Name, len(wn.data), kekIV+p.dekIV+16))
+		return
+	}
+	iv1 := encDEK[p.prefixLen : p.prefixLen+kekIV]
+	iv2 := payload[:p.dekIV]
+	a := bytes.Index(wn.data, iv1)
+	if a < 0 {
+		bad("kek-iv", "KEK IV "+core.Hex(iv1, 24)+" is not a range of the issued bytes")
+		return
+	}
+	if bytes.Index(wn.data[:a], iv2) < 0 && bytes.Index(wn.data[a+kekIV:], iv2) < 0 {
+		bad("dek-iv", "DEK IV "+core.Hex(iv2, 24)+" is not a range of the issued bytes disjoint from the KEK IV")
+		return
+	}
+	var dek []byte
+	var err error
+	func() {
+		defer w.catch(loc + ".kek-decrypt")
+		dek, err = p.kek.Decrypt(encDEK, []byte{})
+	}()
+	if err != nil {
+		r.Violation("C20/invalid-output:"+loc, fmt.Sprintf("%s: the KEK cannot open the encrypted DEK: %v", ks.e.Name, err))
+		return
+	}
+	found := false
+	for i := 0; i+16 <= len(wn.data) && !found; i++ {
+		found = bytes.Contains(dek, wn.data[i:i+16])
+	}
+	if !found {
+		bad("dek", "the serialized DEK holds no 16-byte run of the issued bytes")
+		return
+	}
+	w.oracles["copy"] = true
+	w.noRepeat(ks, "kek-iv", iv1)
+	w.noRepeat(ks, "dek-iv", iv2)
+	w.noRepeat(ks, "dek", dek)
+	r.Probe("kms-envelope-fresh-dek")
 }
 
 // ---------------------------------------------------------------------------
